@@ -17,4 +17,25 @@ PROPS = {
             note="Trusted: pyvc VC generator, z3; pow2 facts used as ground lemmas (each checked natively on a grid every run). Nothing of the statement is left uncovered.",
         ),
     ),
+    "C13": dict(
+        modules=["c13_slice_sizes"],
+        level="proof",
+        assumptions=[
+            "component sizes and transform depths are >= 0, slice counts >= 1, slice_bytes_denominator >= 1, numerator >= 0 (what the validator enforces before these functions are reached)",
+            "'disjoint, in order, covering every coefficient exactly once' is proved in its first-order form: slice 0 starts at 0, the last slice ends at the subband size, "
+            "every slice is ordered, adjacent slices share their boundary (S1_tiling_*), and no coordinate lies in two slices (S1_exactly_once)",
+            "'the flag is true exactly when they do': flag <=> divisibility of the four DC dimensions (S3_flag_definition, from the real body); divisibility => equal sizes at every level "
+            "(S3_forward_x/y); equal sizes in the DC band => divisibility (S3_equal_implies_divisible by induction + S3_slice_size_is_real*); the last step's glue between the "
+            "quantified hypothesis over the spec function slice_size and the real slice_left/right is pointwise (S3_slice_size_is_real*)",
+            "the sum over a picture is expressed by the recursive spec function sum_slice_bytes (telescoping induction S4_partial_sums) and the raster numbering lemma",
+        ],
+        manifest=dict(
+            category="proof",
+            technique="contract-based deductive verification: lemmas over the real bodies of slice_sizes.py (inlined from /repo each run), induction via recursive lemmas, z3",
+            text="For ALL sizes, depths, slice counts, levels and slice indices (unbounded): tiling (S1), padded-picture match for widths and heights at every level (S2), "
+                 "the same-dimensions flag in both directions (S3), slice_bytes >= 0 and partial sums == floor(k*N/D) by induction (S4). Every lemma executes the real "
+                 "function bodies symbolically; nonlinear steps are supplied as ground lemma instances that are themselves grid-checked natively each run.",
+            note="Trusted: pyvc, z3, the ground arithmetic lemmas (div/mod/pow2 facts, grid-checked). Preconditions listed in the evidence assumptions (non-negative sizes, slice counts >= 1).",
+        ),
+    ),
 }
